@@ -39,6 +39,7 @@ type cacheOp struct {
 	Key string `json:"h"`
 	Val string `json:"t"` // value added / value returned ("" + !Hit for a miss)
 	Hit bool   `json:"-"`
+	Chg bool   `json:"-"` // the operation changed the cache contents
 }
 
 // ent is one cache entry.
@@ -60,8 +61,9 @@ type obs struct {
 	Ops    []cacheOp
 	// linearisation (concurrent histories): sequence number of this request's
 	// cache operation and the cache content right after it
-	Seq  int64
-	Snap *snapshot
+	Seq     int64
+	Snap    *snapshot
+	PreSnap *snapshot // cache content right before this request's first cache operation
 }
 
 type obsKey struct{}
@@ -99,18 +101,40 @@ func (c *logCache) Add(ctx context.Context, key, value string) {
 
 func (c *logCache) record(ctx context.Context, op cacheOp) {
 	c.seq++
+	prev := c.last
+	if prev == nil {
+		prev = &snapshot{Order: []string{}}
+	}
 	s, err := c.snapf()
 	if err != nil {
 		c.err = err
 	}
 	c.last = s
+	if s != nil {
+		op.Chg = !sameEnts(prev.Ents, s.Ents)
+	}
 	if o := obsOf(ctx); o != nil {
 		o.mu.Lock()
+		if len(o.Ops) == 0 {
+			o.PreSnap = prev
+		}
 		o.Ops = append(o.Ops, op)
 		o.Seq = c.seq
 		o.Snap = s
 		o.mu.Unlock()
 	}
+}
+
+func sameEnts(a, b []ent) bool {
+	if len(a) != len(b) {
+		return false
+	}
+	for i := range a {
+		if a[i] != b[i] {
+			return false
+		}
+	}
+	return true
 }
 
 // Now returns the current sequence number and content (consistent pair).
